@@ -147,6 +147,15 @@ CHECKS["C11"] = dict(engine="codec", ref="DESIGN.md 5/C11",
           "CodecMon (TraceCodec) decides."),
     technique="TLA+ reference definition of the wire document evaluated by TLC per memento, compared with the implementation's output; TLC trace validation of round-trip facts")
 
+CHECKS["C12"] = dict(engine="names", ref="DESIGN.md 5/C12",
+    text=("QNameDef.tla defines Build and its intended inverse Parts over character sequences; TLC checks Parts(Build(p)) = p over "
+          "token pools with ':', '::', '#', '@', '=', '+', '-', '.', '_'; real functions with adversarial and random explicit versions "
+          "in the default and two named clusters are parsed (NamesMon compares with Parts computed by TLC), memoized and found again "
+          "by call, memento(), list_mementos() and list_memoized_functions() on filesystem and memory backends; caller/callee "
+          "evolutions (callee edited, removed, re-clustered; default and named clusters) run across two interpreter processes and "
+          "must be served, readable, listable, with vanished versions reported as external."),
+    technique="TLA+ reference definition of qualified-name grammar (law checked by TLC) + TLC trace validation of parses, look-ups and cross-process evolutions")
+
 NOT_YET = {
 }
 
@@ -185,6 +194,8 @@ def main():
             "add_only": True,
         },
         "engines": [
+            {"name": "names", "path": "harness/check_names.py", "serves_properties": ["C12"],
+             "kind_free_text": "spec/QNameDef.tla + QName.tla + NamesMon, names_worker.py, ver_worker.py evolutions"},
             {"name": "argkey", "path": "harness/check_argkey.py", "serves_properties": ["C04"],
              "kind_free_text": "spec/ArgKey.tla + JsonText.tla + ArgKeyMon, argkey_worker.py"},
             {"name": "codec", "path": "harness/check_codec.py", "serves_properties": ["C11"],
